@@ -115,6 +115,24 @@ fn error_ledger(rng: &mut Rng) -> (String, &'static str) {
 
 /// Equal-distance conversion chains with different rates, and several unconvertible commodities.
 fn tie_scenario(rng: &mut Rng) -> (String, String, &'static str) {
+    if rng.chance(1, 3) {
+        // two first-level commodities tied in distance to TGT, a second-level one reachable over both
+        // (different dates, different rates) and the held commodity hanging off it by a price older
+        // than everything else: the oldest price decides the staleness of either chain
+        let da = 12 + rng.usize(5);
+        let db1 = 11 + rng.usize(7);
+        let mut db2 = 11 + rng.usize(7);
+        if db2 == db1 {
+            db2 = if db1 == 17 { 11 } else { db1 + 1 };
+        }
+        let dd = 5 + rng.usize(5);
+        let db = format!(
+            "P 2024/01/{:02} MA {} TGT\nP 2024/01/{:02} MB {} TGT\nP 2024/01/{:02} MID {} MA\nP 2024/01/{:02} MID {} MB\nP 2024/01/{:02} XAU {} MID\n",
+            da, 1 + rng.usize(4), da, 1 + rng.usize(4), db1, 1 + rng.usize(3), db2, 2 + rng.usize(3), dd, 1 + rng.usize(9)
+        );
+        let ledger = String::from("2024/01/05 hold\n    Assets:Vault    10 XAU\n    Assets:Vault    3 TGT\n    Assets:Vault    7 MID\n    Equity:Opening\n\n");
+        return (ledger, db, "tie-under-staler-leaf");
+    }
     let d = "2024/01/10";
     let via = 2 + rng.usize(3);
     let mut db = String::new();
@@ -346,7 +364,7 @@ impl Check for C13 {
          scrubbed environment and explicit --now (the repetitions rotate through three settings of TZ / LANG / LC_ALL / HOME / COLUMNS); exit status, stdout and stderr of all runs must be byte-identical. Input families (round-robin): generated accepted \
          ledgers (balance, register, accounts, format); accounts holding 3-6 commodities and multi-commodity inferred postings (balance, register, register of one \
          account); failing assertions / zero assertions / zero assignments on multi-commodity accounts and residuals in four commodities (error text); price graphs \
-         with 2-4 equal-distance chains of different rate and holdings with several unconvertible commodities (balance -X, --historical, primitive eval -X); random \
+         with 2-4 equal-distance chains of different rate, two tied first-level commodities under a second-level one whose leaf hangs off an older price, and holdings with several unconvertible commodities (balance -X, --historical, primitive eval -X); random \
          price scenarios with holdings in every commodity; one account holding 4-6 commodities with non-terminating rates (n/3, n/7, ...) next to 9-digit amounts, so that the converted sum exceeds 28 significant digits (balance -X, --historical, primitive eval -X of the sum); posting amounts / assertions / assignments written as expressions in which 2-4 commodities cancel; include trees with globs (primitive flatten, balance); imports whose rewrite rules have several capturing \
          matchers (CSV and ISO Camt053); CSV imports whose configuration has several defects at once (2-5 labels missing from the header, three different invalid field templates, three invalid patterns in one rule map: error text). With k >= 3 commodities in one printed amount a hash-ordered print differs between two runs with probability >= 5/6, so 6 \
          runs miss it with probability < 1e-3 per input. Distinct by input text."
